@@ -97,6 +97,10 @@ static void op_tgsw(const V &a, V &r) {
         tGswClear(g, p.gp); tGswAddH(g, p.gp); dump_tgsw(g, p, r);
     } else if (opc == 9) {   // the same in the FFT domain, converted back
         TGswSampleFFT *gf = new_TGswSampleFFT(p.gp); tGswFFTClear(gf, p.gp); tGswFFTAddH(gf, p.gp); tGswFromFFTConvert(g, gf, p.gp); dump_tgsw(g, p, r); delete_TGswSampleFFT(gf);
+    } else if (opc == 12 || opc == 13) {   // tGswAddH on the given (non-zero) sample: coefficient domain / through the FFT domain and back
+        if (opc == 12) tGswAddH(g, p.gp);
+        else { TGswSampleFFT *gf = new_TGswSampleFFT(p.gp); tGswToFFTConvert(gf, g, p.gp); tGswFFTAddH(gf, p.gp); tGswFromFFTConvert(g, gf, p.gp); delete_TGswSampleFFT(gf); }
+        dump_tgsw(g, p, r);
     } else if (opc == 10 || opc == 11) {   // acc += poly * row 0 of g, component-wise: tLweAddMulRTo / through tLweFFTAddMulRTo
         TLweSample *acc = new_TLweSample(p.tp); fill_tlwe(acc, p, v); const ll *w = v + p.rowsz();
         IntPolynomial *ip = new_IntPolynomial(p.N); for (int j = 0; j < p.N; j++) ip->coefs[j] = (int32_t) w[j];
@@ -266,10 +270,24 @@ static void op_gatecase(const V &a, V &r) {
     const ll *v = a.data() + SPECN; int g = v[0] % 100, alias = v[0] / 100; v++;      // alias 1..3: the result object IS input a / b / c; 4..6: two operands are one object
     LweSample *in = new_gate_bootstrapping_ciphertext_array(4, P);
     for (int q = 0; q < 3; q++) { for (int i = 0; i < n; i++) in[q].a[i] = (int32_t) v[(size_t) q * (n + 1) + i]; in[q].b = (int32_t) v[(size_t) q * (n + 1) + n]; }
+    // alias 7: the gate runs under an FFT-only cloud key (bk = NULL) derived through the lower-level API; the LweBootstrappingKey it was
+    // converted from has been refilled for other secrets and deleted
+    static std::string fo_spec; static TFheGateBootstrappingCloudKeySet *fo_ck = 0; static LweBootstrappingKeyFFT *fo_bf = 0;
+    if (alias == 7 && (!fo_ck || fo_spec != cur.spec)) {
+        if (fo_ck) { delete fo_ck; delete_LweBootstrappingKeyFFT(fo_bf); }
+        LweBootstrappingKey *bk2 = new_LweBootstrappingKey(P->ks_t, P->ks_basebit, P->in_out_params, P->tgsw_params);
+        tfhe_createLweBootstrappingKey(bk2, cur.sk->lwe_key, cur.sk->tgsw_key);
+        fo_bf = new_LweBootstrappingKeyFFT(bk2);
+        { LweKey *ok = new_LweKey(P->in_out_params); TGswKey *og = new_TGswKey(P->tgsw_params); lweKeyGen(ok); tGswKeyGen(og);
+          tfhe_createLweBootstrappingKey(bk2, ok, og); delete_TGswKey(og); delete_LweKey(ok); }
+        delete_LweBootstrappingKey(bk2);
+        fo_ck = new TFheGateBootstrappingCloudKeySet(P, NULL, fo_bf); fo_spec = cur.spec;
+    }
+    const TFheGateBootstrappingCloudKeySet *ck = (alias == 7) ? fo_ck : &cur.sk->cloud;
     LweSample *res = (alias >= 1 && alias <= 3) ? &in[alias - 1] : &in[3];
     const LweSample *pa = &in[0], *pb = &in[1], *pc = &in[2];          // alias 4: b is the same object as a   5: c is a   6: c is b
     if (alias == 4) pb = pa; if (alias == 5) pc = pa; if (alias == 6) pc = pb;
-    apply_gate(g, res, pa, pb, pc, (int) v[n], &cur.sk->cloud);
+    apply_gate(g, res, pa, pb, pc, (int) v[n], ck);
     r.push_back(lwePhase(res, cur.sk->lwe_key)); r.push_back(bootsSymDecrypt(res, cur.sk));
     dump_lwe(res, n, r);
     delete_gate_bootstrapping_ciphertext_array(4, in);
